@@ -83,6 +83,8 @@ type Lane struct {
 	// After: this lane may start only after lane After has completed all its ops (and, if AfterResp, its response)
 	After     int  `json:"after"` // -1 none
 	AfterResp bool `json:"after_resp,omitempty"`
+	// WaitEnd (client-side runs): the scripted response starts only after the request's END_STREAM arrived
+	WaitEnd bool `json:"wait_end,omitempty"`
 }
 
 // Req is a well-formed request as the peer means it.
